@@ -41,6 +41,12 @@ pub fn run_rm(toks: &[&str]) -> String {
                     let r = rm.delete_link(&dec(f[1]), &dec(f[2]), d.as_deref());
                     opres.push_str(b01(r.is_ok()));
                 }
+                // a has_link question asked in the middle of the history (whatever the manager remembers of its answers
+                // must not outlive the next mutation)
+                "H" => {
+                    let d = opt(f[3]);
+                    opres.push_str(b01(rm.has_link(&dec(f[1]), &dec(f[2]), d.as_deref())));
+                }
                 _ => panic!("bad op"),
             }
         }
